@@ -11,6 +11,7 @@ INFO = dict(
     outside=["eager op-by-op dispatch vs traced execution (JAX's contract, trusted): what is checked is that the same python callable, traced plainly, under jit and under value_and_grad, yields the same dataflow, and that a second call sees unchanged arguments",
              "floating-point rounding"],
     assumptions=["floats are mathematical reals", "jax.random contracts for generators"],
+    fresh_process=True,       # one process per configuration: state a loss keeps at module level must not be pre-consumed by another configuration
 )
 
 
@@ -23,6 +24,11 @@ def configs(tier):
     for kind in ("system_ode", "system_statio", "system_nonstatio"):
         for extra in ("plain", "param"):
             out.append(dict(what="loss", kind=kind, extra=extra, B=B))
+        # the system, its parameters and its batch are built inside the evaluated function with the user's (non-alphabetical) key order:
+        # eager evaluation sees that order, jit / value_and_grad see pytree-sorted dictionaries
+        out.append(dict(what="loss", kind=kind, extra="user-order", B=B))
+    for kind in ("statio", "nonstatio"):
+        out.append(dict(what="loss", kind=kind, extra="facet-dict", B=B))      # boundary conditions given per facet (dictionaries)
     n = 4 if tier == "quick" else 6
     for gk in ("times", "inside2", "border", "nonstatio", "param", "obs"):
         out.append(dict(what="gen", kind=gk, n=n, b=2, x64=False))
@@ -82,9 +88,12 @@ def run(cfg, R):
     import jinns
     from jinns.parameters import Params, ParamsDict
     kind, extra, B = cfg["kind"], cfg["extra"], cfg["B"]
+    userorder = (extra == "user-order")
     if kind.startswith("system"):
         from .c12 import run_system as _rs
-        loss, params, batch = build_system(kind.split("_")[1], B, extra)
+        loss, params, batch = build_system(kind.split("_")[1], B, extra, keys=(("x", "v") if userorder else ("a", "b")))
+    elif extra == "facet-dict":
+        loss, params, batch = build_facet_dict(kind, B)
     else:
         u, params, loss, batch = _mk(kind, B)
         if extra == "plain":
@@ -102,20 +111,28 @@ def run(cfg, R):
                       {"ode": "LossODE", "statio": "LossPDEStatio", "nonstatio": "LossPDENonStatio", "system_ode": "SystemLossODE"}.get(kind, "SystemLossPDE")])
 
     def f(loss, params, batch):
+        if userorder:
+            # rebuilt from the user's pieces, in the user's order (the harness' own flattening sorted the dictionaries of its arguments)
+            ks = ("x", "v")
+            loss, _, _ = build_system(kind.split("_")[1], B, extra, keys=ks, params=type(params)(nn_params={k: params.nn_params[k] for k in ks},
+                                                                                              eq_params={k: params.eq_params[k] for k in ("theta", "kappa")}))
+            params = type(params)(nn_params={k: params.nn_params[k] for k in ks}, eq_params={k: params.eq_params[k] for k in ("theta", "kappa")})
+        snap = lambda l: jax.tree_util.tree_leaves(eqx.filter(l, eqx.is_array))          # array leaves of the loss object
+        lb = snap(loss)
         r1 = loss.evaluate(params, batch)
         mid = (jax.tree_util.tree_map(lambda x: x, params), jax.tree_util.tree_map(lambda x: x, batch))
         r2 = loss.evaluate(params, batch)
         rj = eqx.filter_jit(lambda l, p, b: l.evaluate(p, b))(loss, params, batch)
         (v, aux), _g = jax.value_and_grad(lambda p: loss.evaluate(p, batch), has_aux=True)(params)
-        after = (jax.tree_util.tree_map(lambda x: x, params), jax.tree_util.tree_map(lambda x: x, batch), jax.tree_util.tree_map(lambda x: x, loss))
-        return r1, r2, rj, (v, aux), mid, after
+        after = (jax.tree_util.tree_map(lambda x: x, params), jax.tree_util.tree_map(lambda x: x, batch), snap(loss))
+        return r1, r2, rj, (v, aux), mid, after, lb
 
     tr = R.trace(name, f, (loss, params, batch), key=key + ":raises", trace_only_is_violation=True)
     if tr is None: return
 
     def goals(A, O):
         loss_, p, b_ = A
-        r1, r2, rj, rv, mid, after = O
+        r1, r2, rj, rv, mid, after, lb = O
         G = []
         G += same_tree("a repeated evaluation on the same arguments returns the same result", r1, r2)
         G += same_tree("jit(evaluate) returns the same result", r1, rj)
@@ -124,18 +141,46 @@ def run(cfg, R):
         G += same_tree("args-unchanged: batch after one evaluation is the caller's batch", mid[1], b_)
         G += same_tree("args-unchanged: parameters after all evaluations", after[0], p)
         G += same_tree("args-unchanged: batch after all evaluations", after[1], b_)
-        G += same_tree("args-unchanged: loss object after all evaluations", after[2], loss_)
+        G += same_tree("args-unchanged: loss object after all evaluations", after[2], lb)
         return G
 
     def twins(A, O):
-        r1, r2, rj, rv, mid, after = O
+        r1, r2, rj, rv, mid, after, lb = O
         t = flat_terms(r1)[0]
         return [("the total loss is identically 0", eq(t, const(0, "Real")))]
 
     R.check(name, tr, goals, twin_fn=twins, key_fn=lambda prog, g: key + ":" + g.split(":")[0][:40])
 
 
-def build_system(sk, B, extra):
+def build_facet_dict(kind, B):
+    """single PDE losses whose boundary conditions are per-facet dictionaries (1-D: xmin Dirichlet, xmax Neumann)"""
+    import jinns
+    from jinns.parameters import Params
+    from jinns.loss import LossPDEStatio, LossPDENonStatio, PDEStatio, PDENonStatio
+    from jinns.data._Batchs import PDEStatioBatch, PDENonStatioBatch
+    from ..nets import mk_pinn
+    from ..stubs import psi
+    ot_theta = lambda i, o, p: o * p.eq_params["theta"]
+    statio = kind == "statio"
+    u = mk_pinn(1 if statio else 2, 1, "statio_PDE" if statio else "nonstatio_PDE", deg=1, H=1, ot=ot_theta)
+    params = Params(nn_params=u.init_params(), eq_params={"theta": jnp.array(0.7), "kappa": jnp.array(1.3)})
+    sc = lambda v: jnp.ravel(v)[0]
+    if statio:
+        class Eq(PDEStatio):
+            def equation(self, x, u, p): return jnp.array([psi(0)(u(x, p)[0] + 2.0 * sc(p.eq_params["kappa"]) + 0.5 * x[0])])
+        loss = LossPDEStatio(u=u, dynamic_loss=Eq(Tmax=1), omega_boundary_fun={"xmin": lambda dx: 0.5, "xmax": lambda dx: 0.25},
+                             omega_boundary_condition={"xmin": "dirichlet", "xmax": "neumann"}, params=params)
+        batch = PDEStatioBatch(inside_batch=jnp.arange(1, B + 1).reshape(B, 1) * 0.2, border_batch=jnp.arange(1, 2 * B + 1).reshape(B, 1, 2) * 0.15)
+    else:
+        class Eq(PDENonStatio):
+            def equation(self, t, x, u, p): return jnp.array([psi(0)(u(t, x, p)[0] + 2.0 * sc(p.eq_params["kappa"]) + 0.5 * t[0] + 0.25 * x[0])])
+        loss = LossPDENonStatio(u=u, dynamic_loss=Eq(Tmax=1), omega_boundary_fun={"xmin": lambda t, dx: 0.5, "xmax": lambda t, dx: 0.25},
+                                omega_boundary_condition={"xmin": "dirichlet", "xmax": "neumann"}, initial_condition_fun=lambda x: 0.25 * x[0], params=params)
+        batch = PDENonStatioBatch(times_x_inside_batch=jnp.arange(1, 2 * B + 1).reshape(B, 2) * 0.2, times_x_border_batch=jnp.arange(1, 4 * B + 1).reshape(B, 2, 2) * 0.15)
+    return loss, params, batch
+
+
+def build_system(sk, B, extra, keys=("a", "b"), params=None):
     import jinns
     from jinns.parameters import ParamsDict
     from jinns.loss import SystemLossODE, SystemLossPDE, ODE, PDEStatio, PDENonStatio, LossWeightsODEDict, LossWeightsPDEDict
@@ -145,27 +190,31 @@ def build_system(sk, B, extra):
     ot_theta = lambda i, o, p: o * p.eq_params["theta"]
     d_in = {"ode": 1, "statio": 1, "nonstatio": 2}[sk]
     eq_type = {"ode": "ODE", "statio": "statio_PDE", "nonstatio": "nonstatio_PDE"}[sk]
-    nets = {k: mk_pinn(d_in, 1, eq_type, deg=1, H=1, ot=ot_theta) for k in ("a", "b")}
-    params = ParamsDict(nn_params={k: nets[k].init_params() for k in nets}, eq_params={"theta": jnp.array(0.7), "kappa": jnp.array(1.3)})
+    ka_, kb_ = keys
+    nets = {k: mk_pinn(d_in, 1, eq_type, deg=1, H=1, ot=ot_theta) for k in keys}
+    if params is None:
+        params = ParamsDict(nn_params={k: nets[k].init_params() for k in nets}, eq_params={"theta": jnp.array(0.7), "kappa": jnp.array(1.3)})
     sc = lambda v: jnp.ravel(v)[0]
     def body(t, x, ud, pd):
         ev = lambda k: (ud[k](t, pd.extract_params(k)) if sk == "ode" else ud[k](x, pd.extract_params(k)) if sk == "statio" else ud[k](t, x, pd.extract_params(k)))[0]
-        return jnp.array([psi(0)(ev("a") + 2.0 * sc(pd.eq_params["kappa"]) * ev("b"))])
+        return jnp.array([psi(0)(ev(ka_) + 2.0 * sc(pd.eq_params["kappa"]) * ev(kb_))])
     if sk == "ode":
         class Eq(ODE):
             def equation(self, t, ud, pd): return body(t, None, ud, pd)
-        loss = SystemLossODE(u_dict=nets, dynamic_loss_dict={"a": Eq(Tmax=1), "b": Eq(Tmax=1)}, initial_condition_dict={"a": (jnp.array(0.25), jnp.array([0.5])), "b": None},
+        loss = SystemLossODE(u_dict=nets, dynamic_loss_dict={ka_: Eq(Tmax=1), kb_: Eq(Tmax=1)}, initial_condition_dict={ka_: (jnp.array(0.25), jnp.array([0.5])), kb_: (jnp.array(0.125), jnp.array([0.75]))},
                              loss_weights=LossWeightsODEDict(dyn_loss=1.0, initial_condition=1.0, observations=1.0), params_dict=params)
         batch = ODEBatch(temporal_batch=jnp.arange(1, B + 1) * 0.2)
     elif sk == "statio":
         class Eq(PDEStatio):
             def equation(self, x, ud, pd): return body(None, x, ud, pd)
-        loss = SystemLossPDE(u_dict=nets, dynamic_loss_dict={"a": Eq(Tmax=1), "b": Eq(Tmax=1)}, loss_weights=LossWeightsPDEDict(), params_dict=params)
-        batch = PDEStatioBatch(inside_batch=jnp.arange(1, B + 1).reshape(B, 1) * 0.2, border_batch=None)
+        loss = SystemLossPDE(u_dict=nets, dynamic_loss_dict={ka_: Eq(Tmax=1), kb_: Eq(Tmax=1)}, loss_weights=LossWeightsPDEDict(), params_dict=params,
+                             omega_boundary_fun_dict={ka_: (lambda dx: 0.5), kb_: None}, omega_boundary_condition_dict={ka_: "dirichlet", kb_: None})
+        batch = PDEStatioBatch(inside_batch=jnp.arange(1, B + 1).reshape(B, 1) * 0.2, border_batch=jnp.arange(1, 2 * B + 1).reshape(B, 1, 2) * 0.15)
     else:
         class Eq(PDENonStatio):
             def equation(self, t, x, ud, pd): return body(t, x, ud, pd)
-        loss = SystemLossPDE(u_dict=nets, dynamic_loss_dict={"a": Eq(Tmax=1), "b": Eq(Tmax=1)}, loss_weights=LossWeightsPDEDict(), params_dict=params)
+        loss = SystemLossPDE(u_dict=nets, dynamic_loss_dict={ka_: Eq(Tmax=1), kb_: Eq(Tmax=1)}, loss_weights=LossWeightsPDEDict(), params_dict=params,
+                             initial_condition_fun_dict={ka_: (lambda x: 0.25 * x[0]), kb_: (lambda x: 0.5 * x[0])})
         batch = PDENonStatioBatch(times_x_inside_batch=jnp.arange(1, 2 * B + 1).reshape(B, 2) * 0.2, times_x_border_batch=None)
     if extra == "param":
         batch = eqx.tree_at(lambda b: b.param_batch_dict, batch, {"kappa": jnp.arange(1, B + 1).reshape(B, 1) * 0.3}, is_leaf=lambda x: x is None)
